@@ -399,6 +399,12 @@ fn c13_in_progress(bytes: &[u8], game: &Game) -> Result<(), String> {
 		if de::parse_event(&mut r, &mut state, None).map_err(e)? == 0x39 {
 			break;
 		}
+		// mid-stream: the frame before the newest one is closed as soon as the newest exists; its row view must already be the
+		// final one, whatever has been received of the newest frame so far (items included)
+		if state.len() >= 2 {
+			let i = state.len() - 2;
+			same_rows(i, &state.frame(i), &game.frame(i)).map_err(|m| format!("while frame row {} was still open: {}", i + 1, m))?;
+		}
 	}
 	if state.len() != game.len() {
 		return Err(format!("in-progress len() {} but finished len() {}", state.len(), game.len()));
@@ -747,6 +753,28 @@ pub fn mutations(bytes: &[u8], exp: &Expected) -> Vec<(String, Vec<u8>)> {
 		let mut del = bytes[..a].to_vec();
 		del.extend_from_slice(&bytes[z..]);
 		out.push((format!("delraw@{}", i), del));
+	}
+	// fixed-width text fields of the Game Start block (offsets in the raw block, widths): unterminated, ending in a multi-byte
+	// character exactly at the field end, ending in half a character, all 0xFF -- for each field the block is long enough to hold
+	let gs_payload = ev[1].off + 1;
+	let gs_len = ev[1].len - 1;
+	for (name, off, width) in [("tag0", 0x160usize, 16usize), ("tag3", 0x190, 16), ("name0", 0x1A4, 31), ("code0", 0x220, 10), ("uid0", 0x248, 29), ("uid3", 0x248 + 3 * 29, 29), ("match", 0x2BD, 51)] {
+		if off + width > gs_len {
+			continue;
+		}
+		let fills: [(&str, Vec<u8>); 6] = [
+			("ascii", vec![b'a'; width]),
+			("utf8tail", { let mut v = vec![b'a'; width - 2]; v.extend_from_slice(&[0xC3, 0xA9]); v }),
+			("utf8half", { let mut v = vec![b'a'; width - 1]; v.push(0xC3); v }),
+			("sjistail", { let mut v = vec![b'a'; width - 2]; v.extend_from_slice(&[0x82, 0xA0]); v }),
+			("sjishalf", { let mut v = vec![b'a'; width - 1]; v.push(0x82); v }),
+			("ff", vec![0xFF; width]),
+		];
+		for (fname, fill) in fills {
+			let mut b = bytes.to_vec();
+			b[gs_payload + off..gs_payload + off + width].copy_from_slice(&fill);
+			out.push((format!("gs:{}:{}", name, fname), b));
+		}
 	}
 	// declared raw length
 	for n in [0u32, 5, exp.raw_len as u32 - 1, exp.raw_len as u32 + 1, 0x7fff_ffff, 0xffff_ffff] {
